@@ -305,8 +305,9 @@ def call(world, obj, act, argsink):
     return getattr(obj, f"without_{item}")(arg(act["voi"]), **fl)
 
 
-def execute(world, o, act, src="table"):
-    """One event: build the receiver (and an identical peer), run the call, project everything."""
+def execute(world, o, act, src="table", fault_at=None):
+    """One event: build the receiver (and an identical peer), run the call, project everything.
+    With fault_at=n the call is cut short by an InjectedFault raised at its n-th executed library line."""
     reg = Registry()
     recv = world.make(o)
     if recv is None:
@@ -324,10 +325,21 @@ def execute(world, o, act, src="table"):
     if world.shared is not None:
         args.append([world.shared, world.alpha(world.shared)])       # must come out of every call unmodified
     res, result = "ok", None
-    try:
-        result = call(world, recv, act, args)
-    except Exception as e:  # noqa: BLE001
-        res = type(e).__name__
+    fault_loc = None
+    if fault_at is None:
+        try:
+            result = call(world, recv, act, args)
+        except Exception as e:  # noqa: BLE001
+            res = type(e).__name__
+    else:
+        from . import sched
+        tr = sched.LineTracer(fault_at=fault_at)
+        r = tr.run(lambda: call(world, recv, act, args))
+        fault_loc = tr.fault_loc
+        if r[0] == "ok":
+            result = r[1]
+        else:
+            res = "InjectedFault" if r[0] == "injected" else r[1].split(":")[0]
     recv_post = world.alpha(recv)
     dnc_tok = []
     ids_post = world.tokens(recv, reg, dnc_out=dnc_tok)
@@ -347,6 +359,9 @@ def execute(world, o, act, src="table"):
         ev["result"] = S.MISSING if res != "ok" else world.alpha(result)
         tok_res = [] if res != "ok" else [t for _, t in world.tokens(result, reg)]
         ev["result_kind"] = "none" if res != "ok" else "other"
+    if fault_at is not None:
+        ev["fault_at"] = fault_at
+        ev["fault_loc"] = list(fault_loc) if fault_loc else []
     ev["tok_recv"], ev["tok_res"], ev["tok_args"], ev["tok_dnc"], ev["tok_dflt"] = tok_recv, tok_res, tok_args, [t for _, t in dnc_tok], dflt_tok
     return ev
 
@@ -358,6 +373,32 @@ def run_table(job):
     for o in states:
         for a in acts:
             ev = execute(w, o, a)
+            if ev is not None:
+                out.append(ev)
+    return out
+
+
+def count_lines(world, o, act):
+    from . import sched
+    recv = world.make(o)
+    if recv is None:
+        return 0
+    CURRENT["world"] = world
+    tr = sched.LineTracer()
+    tr.run(lambda: call(world, recv, act, []))
+    return tr.lines
+
+
+def run_faults(job):
+    """Crash points: every (thinned) executed library line of each copy-on-write call as an abort point."""
+    name, pairs, stride = job
+    w = World(name)
+    out = []
+    for o, a in pairs:
+        execute(w, o, a)                       # warm up lazily built methods / caches
+        n = count_lines(w, o, a)
+        for k in range(1, n + 1, stride):
+            ev = execute(w, o, a, src="fault", fault_at=k)
             if ev is not None:
                 out.append(ev)
     return out
